@@ -136,7 +136,7 @@ func c13Run(c *mc.Ctx) {
 					}
 				}
 			}
-			if c.WantSample(order >> 16) {
+			if seq == 2 && si%40 == 7 {
 				c.ForceSample(map[string]interface{}{"words": append(gen.Words(nil), w...), "ranges": int64(nb) * int64(nb+1) / 2})
 			}
 		})
